@@ -36,7 +36,7 @@ func c15Fill(tmpl string, names [3]string) string {
 
 func c15Scenario(tier string) *core.Scenario {
 	names := c15Names
-	if tier != "thorough" {
+	if false {
 		names = []string{"a", "aa", "A", "a_", "prefix89", "prefix89x", "n234567890123456789012345678901234567890", "Z9"}
 	}
 	ref := [3]string{"first_sym", "second_sym", "third_sym"}
